@@ -12,6 +12,10 @@
 //!  * arity: delegate with one parameter more / fewer
 //!  * mapping-states: kind of candidate × hierarchy level × placement of the parents (main jar, library jar,
 //!    nowhere) × interface × where the bridge is named × delegate entry × class entry × calamus mode
+//!  * relay (two spaces): the bridge in p/D over p/A ← p/B ← p/C ← p/D with the interface p/I (⊂ p/I0) on any class of
+//!    the chain × where the bridge is named (every place above p/D) × the class entry of every super type in the
+//!    named mappings {named, without target name, absent} × where calamus names the bridge × the class entry of every
+//!    super type in calamus {present, absent} × where the delegate is declared (up to two levels above the call's owner)
 //!  * multi: two candidates over the chain A ← B ← C (same delegate from two classes, two delegates in one
 //!    class, bridge calling a bridge)
 
@@ -200,6 +204,48 @@ fn main() {
 			Some((spec.label(), build(&spec).input))
 		}));
 	}
+	// 3b. relay: the bridge in p/D over the chain p/A <- p/B <- p/C <- p/D with the interface p/I (optionally extending
+	// p/I0) on any class of the chain. The bridge's name comes from any place above p/D; the class entry of every
+	// class on the way (and off the way) is present, present without target name or absent in the named mappings
+	// and present or absent in the calamus mappings. A class that names nothing itself hands the question on to its
+	// own super types, whether or not the mappings have an entry for it.
+	let ent_sets: Vec<[Ent; 5]> = (0..243u64).map(|i| {
+		let v = product_nth(&[3; 5], i);
+		[ENTS[v[0]], ENTS[v[1]], ENTS[v[2]], ENTS[v[3]], ENTS[v[4]]]
+	}).collect();
+	let absent_sets: Vec<[bool; 5]> = (0..32u64).map(|i| {
+		let v = product_nth(&[2; 5], i);
+		[v[0] == 1, v[1] == 1, v[2] == 1, v[3] == 1, v[4] == 1]
+	}).collect();
+	// without p/I0 everything that concerns p/I0 alone repeats another case
+	let relay_spec = |kind: &Spec, iface_on: usize, iface_super: bool, decl: Decl, name_at: NameAt, ent_named: [Ent; 5], calamus: Calamus, calamus_absent: [bool; 5]| -> Option<(String, oracle::Input)> {
+		if !iface_super && (ent_named[4] != Ent::Named || calamus_absent[4] || calamus == Calamus::RenamesIface0 || matches!(name_at, NameAt::Iface0 | NameAt::Up3AndIface0)) {
+			return None;
+		}
+		let spec = Spec { level: 3, iface: Iface::Main, iface_on, iface_super, decl, same_name: false, name_at, ent_named, calamus, calamus_absent, ..kind.clone() };
+		Some((spec.label(), build(&spec).input))
+	};
+	let relay_modes: &[Calamus] = ctx.tier.pick(&CALAMI_RELAY[..2], &CALAMI_RELAY[..]);
+	let relay_absent: &[[bool; 5]] = ctx.tier.pick(&absent_sets[..1], &absent_sets[..]);
+	{
+		let dims = [2, 4, 2, NAME_ATS_RELAY.len(), ent_sets.len(), relay_modes.len(), relay_absent.len()];
+		let n = vcore::enumerate::Product::size(&dims);
+		run("relay-named-entries", sweep_pairs(ctx, "relay-named-entries", n, (NAME_ATS_RELAY.len() * ent_sets.len() * relay_modes.len() * relay_absent.len()) as u64, |idx| {
+			let v = product_nth(&dims, idx);
+			relay_spec(&kinds_all[v[0]], v[1], v[2] == 1, Decl::AtOwner, NAME_ATS_RELAY[v[3]], ent_sets[v[4]], relay_modes[v[5]], relay_absent[v[6]])
+		}));
+	}
+	let uniform_ents: [[Ent; 5]; 3] = [[Ent::Named; 5], [Ent::Absent; 5], [Ent::WithoutTargetName; 5]];
+	let relay_decls = [Decl::AtOwner, Decl::AboveOwner, Decl::TwoAboveOwner];
+	let relay_kinds = ctx.tier.pick(1, 2);
+	{
+		let dims = [relay_kinds, 4, 2, relay_decls.len(), NAME_ATS_RELAY.len(), uniform_ents.len(), CALAMI_RELAY.len(), absent_sets.len()];
+		let n = vcore::enumerate::Product::size(&dims);
+		run("relay-calamus-entries", sweep_pairs(ctx, "relay-calamus-entries", n, (NAME_ATS_RELAY.len() * uniform_ents.len() * CALAMI_RELAY.len() * absent_sets.len()) as u64, |idx| {
+			let v = product_nth(&dims, idx);
+			relay_spec(&kinds_all[v[0]], v[1], v[2] == 1, relay_decls[v[3]], NAME_ATS_RELAY[v[4]], uniform_ents[v[5]], CALAMI_RELAY[v[6]], absent_sets[v[7]])
+		}));
+	}
 	// 4. two candidates
 	{
 		let dims = [MODES.len(), 3, 3, KINDS.len(), KINDS.len(), 3, 2, 2, 2];
@@ -222,6 +268,24 @@ fn main() {
 	ctx.floor("renames with the bridge named directly", 1, mech("rename:named-directly"));
 	ctx.floor("renames with the name inherited from the direct super type", 1, mech("rename:inherited-depth-1"));
 	ctx.floor("renames with the name inherited from a super type two levels up", 1, mech("rename:inherited-depth-2"));
+	for d in 3..=5 {
+		ctx.floor(&format!("renames with the name inherited from a super type {d} levels up"), 1, mech(&format!("rename:inherited-depth-{d}")));
+	}
+	for (what, tag) in [
+		("handed on by a class without entry in the mappings", "name-relayed-by-a-class-without-entry-in-the-mappings"),
+		("handed on by two or more classes without entry in the mappings", "name-relayed-by-two-or-more-classes-without-entry-in-the-mappings"),
+		("handed on by a class without entry in the mappings to its interface", "name-relayed-by-a-class-without-entry-in-the-mappings-to-its-interface"),
+		("handed on by a class whose entry has no target name", "name-relayed-by-a-class-entry-without-target-name"),
+		("handed on by a class that lists the bridge without target name", "name-relayed-by-a-class-that-lists-the-bridge-without-target-name"),
+	] {
+		ctx.floor(&format!("renames with the name {what}"), 100, mech(&format!("rename:{tag}")));
+	}
+	for who in ["bridge", "delegate"] {
+		ctx.floor(&format!("renames with the {who}'s intermediary name inherited"), 100, mech(&format!("rename:{who}-intermediary-name-inherited")));
+		ctx.floor(&format!("renames with the {who}'s intermediary name handed on by a class without calamus entry"), 100, mech(&format!("rename:{who}-intermediary-name-relayed-by-a-class-without-calamus-entry")));
+	}
+	ctx.floor("renames with the bridge's intermediary name handed on by two or more classes without calamus entry", 100, mech("rename:bridge-intermediary-name-relayed-by-two-or-more-classes-without-calamus-entry"));
+	ctx.floor("renames with the bridge's intermediary name handed on by a class without calamus entry to its interface", 100, mech("rename:bridge-intermediary-name-relayed-by-a-class-without-calamus-entry-to-its-interface"));
 	ctx.floor("renames through real calamus renames", 1, mech("rename:through-real-calamus-renames"));
 	ctx.floor("renames of a delegate owned by another class", 1, mech("rename:delegate-owned-by-another-class"));
 	ctx.floor("renames that add a new entry", 1, mech("rename:adds-entry"));
@@ -248,7 +312,7 @@ fn main() {
 		"mechanisms": mechanisms,
 		"spaces": spaces,
 		"bounds": {
-			"hierarchy": "p/A <- p/B <- p/C (depth 3), A's super in {java/lang/Object, lib/L in a library jar, ext/E in no jar}, interface p/I in {absent, main jar, library jar}, A and B each in {main jar, library jar, no jar}",
+			"hierarchy": "p/A <- p/B <- p/C (depth 3; relay spaces: <- p/D, depth 4, interface p/I extending p/I0 on any class of the chain), A's super in {java/lang/Object, lib/L in a library jar, ext/E in no jar}, interface p/I in {absent, main jar, library jar}, A and B each in {main jar, library jar, no jar}",
 			"position_relations": REL.iter().map(|r| r.0).collect::<Vec<_>>(),
 			"return_only_relations": RET_ONLY.iter().map(|r| r.0).collect::<Vec<_>>(),
 			"call_sets": CALLS.iter().map(|c| format!("{c:?}")).collect::<Vec<_>>(),
@@ -258,6 +322,8 @@ fn main() {
 			"arity_2_space": format!("{} signatures × synthetic {:?} × bridge flag {:?} × modifiers {:?} × calls {:?} × delegate name", sigs2.len(), syn2, flag2, mods2, calls2),
 			"arity_delta_space": "parameter shapes over {equal-primitive, equal-class, erased-to-object}^(1..2) × return {void, equal-class, erased-to-object} × delta {+1, -1, 0} × synthetic × bridge flag × delegate name × delegate owner",
 			"mapping_state_space": format!("{} candidate kinds × {} (level, placement) shapes × {} (delegate owner, name) × A-super 3 × interface {} × name location {:?} × delegate entry {:?} × class entry {:?} × calamus {:?}", kinds.len(), shapes.len(), owner_names.len(), ifaces.len(), NAME_ATS, DELEGATE_ENTRIES, CLASS_ENTRIES, CALAMI),
+			"relay_named_entries_space": format!("bridge in p/D over p/A <- p/B <- p/C <- p/D: 2 candidate kinds × interface p/I on the class 0..3 levels above p/D × p/I extends p/I0 {{no, yes}} × name location {:?} × class entry of [p/C, p/B, p/A, p/I, p/I0] in the named mappings {:?}^5 × calamus {:?} × {} subsets of [p/C, p/B, p/A, p/I, p/I0] without calamus entry (cases that differ only in something about an absent p/I0 are generated once)", NAME_ATS_RELAY, ENTS, relay_modes, relay_absent.len()),
+			"relay_calamus_entries_space": format!("same worlds: {} candidate kinds × interface position 0..3 × p/I0 {{no, yes}} × delegate declared {:?} × name location {:?} × named class entries all {{named, absent, without target name}} × calamus {:?} × all 32 subsets of [p/C, p/B, p/A, p/I, p/I0] without calamus entry", relay_kinds, relay_decls, NAME_ATS_RELAY, CALAMI_RELAY),
 			"two_candidate_space": "mode {same delegate, different delegates, chain} × class of each candidate {A,B,C}² × kind {flagged, unflagged, not synthetic}² × name of first {own, in A, nowhere} × name of second {own, nowhere} × first class absent × delegate already named",
 			"javac_corpus": "the vendored javac-17 corpus (main, main8, main11) as main jar × naming scheme {every synthetic named directly, only ordinary methods with a bridge's signature named, nothing named} × calamus {identity, empty}",
 			"signatures_arity_0_1": sigs01.len(),
